@@ -94,7 +94,14 @@ func c12Normalize(r *scenarioRun) map[string]interface{} {
 				}
 			}
 		}
-		out[reHex.ReplaceAllString(strings.ReplaceAll(k, r.sc.ID, "ID"), "HASH")] = normalizeIDs(v, r.sc.ID)
+		key := reHex.ReplaceAllString(strings.ReplaceAll(k, r.sc.ID, "ID"), "HASH")
+		if m, ok := v.(map[string]interface{}); ok && m["kind"] == "ControllerRevision" {
+			// revisions of different incarnations of the parent differ only in the hash: keep them apart
+			for _, ref := range sim.OwnerRefs(m) {
+				key += "@" + strings.ReplaceAll(ref.UID, r.sc.ID, "ID")
+			}
+		}
+		out[key] = normalizeIDs(v, r.sc.ID)
 	}
 	return out
 }
